@@ -1,7 +1,7 @@
 -- imports: Generated.InterpWin
 /-!
 Model of beyond/utils/interp.py (`Interp.__init__`, `__call__`, `_prev_idx`, `_linear`, `_lagrange`)
-and of its use in beyond/orbits/ephem.py (`Ephem.__init__`, `interp`, `frame/form` setters, `interpolate`).
+and of its use in beyond/orbits/ephem.py (`Ephem.__init__`, `interp`, `frame/form` setters with `_refresh_interp`, `interpolate`).
 
 * abscissae `xs : List R`; ordinates `ys : List (List R)` — one row per abscissa (a 1-D `ys` is a table
   of rows of length 1);
@@ -145,5 +145,7 @@ def Eph.interpolate (e : Eph) (date : R) : Except Err Pt × Eph :=
     | some p0 => (.ok { mjd := date, coord := v, form := p0.form, frame := p0.frame }, e')
 
 /-- `ephem.frame = …` / `ephem.form = …`: every point is converted in place by `conv`
-(which keeps the date); the interpolator, if it exists already, is not touched -/
-def Eph.convert (e : Eph) (conv : Pt → Pt) : Eph := { e with pts := e.pts.map conv }
+(which keeps the date), then `_refresh_interp()`: if the interpolator exists already its ordinates are
+rebuilt from the converted points -/
+def Eph.convert (e : Eph) (conv : Pt → Pt) : Eph :=
+  { e with pts := e.pts.map conv, cache := e.cache.map (fun _ => (e.pts.map conv).map (·.coord)) }
